@@ -85,6 +85,9 @@ class TraceCsv(Trace):
         # stores current time stamp
         self.index = 0
         self.max_index = len(self.timestamps.keys()) - 1
+        # cached virtual signal values belong to the old sampling
+        for signal in self.virtual_signals.values():
+            signal.cache = {}
 
     def access_signal_data(self, name, index):
         if self.lookup:
